@@ -355,6 +355,9 @@ type c37State struct {
 	replay   bool
 	knownFS4 bool
 	knownFS5 bool
+	// FS42: the fix of FS4 (d5226c2) only guards InclusiveRangeType.Resolve; the nil member type of an InclusiveRange written with a
+	// wrong number of type arguments still crashes other visitors (IsImportable for transaction parameters, …). Same predicate.
+	knownFS42 bool
 }
 
 // quiet evaluates a case without touching the evidence counters (used while shrinking).
@@ -478,10 +481,19 @@ func (st *c37State) one(c Case, class string) string {
 		co := checkGuarded(pr.Program)
 		if co.Panic != nil {
 			// FS4: InclusiveRange instantiated with a wrong number of type arguments keeps a nil member type
-			if st.knownFS4 && strings.Contains(fmt.Sprint(co.Panic), "nil pointer dereference") && bytes.Contains(input, []byte("InclusiveRange")) &&
+			if (st.knownFS4 || st.knownFS42) && strings.Contains(fmt.Sprint(co.Panic), "nil pointer dereference") && bytes.Contains(input, []byte("InclusiveRange")) &&
 				(strings.Contains(co.Stack, "sema.(*InclusiveRangeType).") || hasBadInclusiveRange(input)) {
-				rec.Excluded("FS4")
+				if st.knownFS4 {
+					rec.Excluded("FS4")
+				} else {
+					rec.Excluded("FS42")
+				}
 				rec.Class("check-panic-FS4")
+				co = checkOutcome{}
+			} else if rec.Known("FS43") && !st.replay && strings.Contains(co.Stack, "sema.(*Checker).checkDefaultDestroyEvent") && bytes.Count(input, []byte("ResourceDestroyed")) >= 2 {
+				// FS43: a resource that declares ResourceDestroyed twice with different parameter counts
+				rec.Excluded("FS43")
+				rec.Class("check-panic-FS43")
 				co = checkOutcome{}
 			} else if rec.Known("FS7") && !st.replay && strings.Contains(co.Stack, "sema.(*Checker).checkDefaultDestroyEvent") && bytes.Contains(input, []byte("ResourceDestroyed")) {
 				// FS7: a resource interface declaring ResourceDestroyed(with parameters) next to any other nested composite
@@ -564,6 +576,9 @@ func firstLine(s string) string {
 // hasBadInclusiveRange reports whether the source mentions InclusiveRange with a number of type
 // arguments other than one (predicate of finding FS4: such a type keeps a nil member type).
 func hasBadInclusiveRange(src []byte) bool {
+	for _, c := range srcgen.ScanComments(src) {
+		src = bytes.Replace(src, []byte(c), []byte(" "), 1)
+	}
 	key := []byte("InclusiveRange")
 	for off := 0; ; {
 		k := bytes.Index(src[off:], key)
@@ -642,6 +657,7 @@ func TestC37(t *testing.T) {
 	st.knownFS2 = rec.Known("FS2")
 	st.knownFS4 = rec.Known("FS4")
 	st.knownFS5 = rec.Known("FS5")
+	st.knownFS42 = rec.Known("FS42")
 
 	// watchdog: a case that does not finish is a termination violation (generous bound, ≥ 1000× the typical case)
 	done := make(chan struct{})
@@ -716,6 +732,14 @@ func TestC37(t *testing.T) {
 			}
 		}
 		rec.ReportKnown("FS5", still)
+	}
+	if rec.Known("FS43") {
+		pr := parseGuarded([]byte("resource C { event ResourceDestroyed() event ResourceDestroyed(c: Int = 1) }"))
+		rec.ReportKnown("FS43", pr.Program != nil && checkGuarded(pr.Program).Panic != nil)
+	}
+	if rec.Known("FS42") {
+		pr := parseGuarded([]byte("transaction(a: InclusiveRange) {}"))
+		rec.ReportKnown("FS42", pr.Program != nil && checkGuarded(pr.Program).Panic != nil)
 	}
 	if rec.Known("FS7") {
 		pr := parseGuarded([]byte("resource interface J { event a() event ResourceDestroyed(c: Int = 1) }"))
